@@ -67,6 +67,8 @@ def generate(rs: int, tier: str, index: int) -> dict:
         step["mutate"] = True  # history on the same object: query, overwrite the coefficients in place, query again
     if ch.chance(0.25):
         step["scribble"] = True
+    if ch.sub("npflags").chance(0.15):
+        step["np_flags"] = True
     if ch.sub("results").chance(0.25):
         step["scribble_results"] = True  # a caller overwrote what the queries returned; the polynomial itself was not touched
     if ch.sub("abort").chance(0.15):
@@ -145,6 +147,8 @@ class Runner:
                 names, els = model.elements(p)
                 nv = len(names)
                 g, r = step["graded"], step["reverse"]
+                if step.get("np_flags"):
+                    g, r = numpy.bool_(g), numpy.bool_(r)  # flags computed with numpy arrive as numpy.bool_
                 tag = f"{pol}/{fill}"
                 try:
                     with numpoly.global_options(**step.get("options", {})):
